@@ -235,6 +235,33 @@ def r3(ck, F):
             ck.ok("C03.R3", key, fn=b.path)
         else:
             ck.bad("C03.R3", "%s builds Span with unrecognised inner" % b.path, where(s["sp"]), "Span.inner originates from %s: a handle without its own counted reference" % (o[0],), fn=b.path)
+    # Clone::clone_from of a handle type, where overridden, is `*self = source.clone()` on every path: a shortcut taken
+    # because the two handles "look equal" (equality compares callsite and id, not the collector) leaves the old
+    # reference un-released and the new one un-counted
+    for imp in F.impls:
+        if imp.get("trait") != "core::clone::Clone" or imp["self_ty"] not in (SP + "Span", SP + "Inner", SP + "EnteredSpan"):
+            continue
+        cf = imp.get("methods", {}).get("clone_from")
+        short = imp["self_ty"].rsplit("::", 1)[-1]
+        key = "%s::clone_from takes a new reference and releases the old one on every path" % short
+        if not cf or F.body(cf) is None:
+            ck.ok("C03.R3", key, detail="not overridden: the provided `*self = source.clone()`", nontrivial=False)
+            continue
+        cb = F.body(cf)
+        bad_paths = 0
+        n = 0
+        for pth in PathEval(cb).run():
+            if pth.end != "return":
+                continue
+            n += 1
+            cloned = any(c[1].get("method") == "clone" and short in str(c[1].get("self_ty") or c[1].get("full")) or c[1].get("method") == "clone_from" for c in pth.calls)
+            if not cloned:
+                bad_paths += 1
+        if n and not bad_paths:
+            ck.ok("C03.R3", key, fn=cb.path)
+        else:
+            ck.bad("C03.R3", key, where(cb.raw["sp"]), "%d of %d paths return without cloning the source: the source's collector gets no clone_span for this handle and the "
+                   "replaced reference is never released" % (bad_paths, n), fn=cb.path)
     # not Copy
     for imp in F.impls:
         if imp.get("trait") == "core::marker::Copy" and HANDLE_TY.search(imp["self_ty"]):
